@@ -13,6 +13,8 @@ import plsscorr
 
 # foreign words: >= 4 alphanumerics, not a keyword of any pattern; endings chosen to collide with the cull words
 WORDS = ['ZZZQ', 'QQXJ7', 'XENOLITH', 'BASIN', 'MARGIN', 'THEREOF', 'BATHE', 'KOALL', 'OVERLAND', 'Franklin', 'wherein', 'Proof', 'QAND', 'zzthe']
+# foreign phrases that only a case-INSENSITIVE comparison (re.IGNORECASE lets 'i' match U+0130 / U+0131) would take for the connector ' all in'
+FOLD_WORDS = ['ALL \u0130N', 'all \u0131n', 'All \u0131N']
 SHORT_WORDS = ['QXZ', 'XQ7', 'ZQJ', 'QX', 'Q']   # 3 characters: the shortest that must still be reported; 1-2: see known finding C04-short-unused
 MODES = ['', 'segment', 'sec_within', 'sec_colon_required', 'sec_colon_cautious', 'TRS_desc', 'desc_STR', 'copy_all', 'segment,sec_within', 'ocr_scrub']
 PM_RGX = re.compile(r'(P\.?\s*M\.?|Principal\s+Meridian|Meridian)', re.I)
@@ -58,6 +60,8 @@ def run(tier, mode):
         bounds = token_boundaries(base)
         for pos in (bounds if tier == 'thorough' and i % 4 == 0 else r.sample(bounds, min(len(bounds), 5))):
             w = r.choice(SHORT_WORDS) if r.random() < 0.3 else r.choice(WORDS)
+            if r.random() < 0.12:
+                w = r.choice(FOLD_WORDS)
             left = base[:pos]
             sep_l = '' if (not left or left[-1].isspace()) else ' '
             text = left + sep_l + w + ' ' + base[pos:]
